@@ -1,2 +1,12 @@
-HOOK_COMMITS = []
-CLAIMED.update({})
+HOOK_COMMITS = ["74c1968", "80f8eba"]
+T = "contract-based deductive verification: weakest-precondition style symbolic execution of the go/ssa (naive form) IR of the current /repo sources against contracts in /repo/contracts_verif.go; obligations discharged by z3/cvc5"
+CLAIMED.update({
+ "C01": (T,
+   "proof: every path of requestPacket/requestType/requestMessageID/*Parameters/decodeAttribute/newMessage/newRequest satisfies post-conditions written from RFC 4511 positions: message kind by protocolOp tag, message ID, DNs, password, scope, deref, size/time limit, types-only, filter (= go-ldap decompiler result), attribute lists, add attributes and values, modify operations/types and one element per client value, extended name, number of controls; unsupported tags and bind version != 3 yield an error; well-formed requests without controls of bind/search/add/delete/extended/unbind are accepted. For all packets in wire form (no bound on sizes or counts).",
+   "trusted: go-asn1-ber reader returns packets in wire form (predicate wire in the contract file), ldap.DecompileFilter is a function of the sub-tree, fmt/strings catalogue. Not proved: contents of decoded controls (only their number) and acceptance of well-formed Modify requests / requests with controls (decodeControl mutates sibling sub-trees; no separation argument yet); modify values: count per change proved, wrapped content proved per iteration only.",
+   "DESIGN.md §5 C01"),
+ "C02": (T,
+   "proof: zero-annotation panic-freedom sweep (nil dereference, index, slice bounds, type assertion, division, nil map, makeslice) of every function on the request decode path, for every packet tree in wire form; `panics false` on each function, callee contracts used at call sites.",
+   "trusted: go-asn1-ber never returns nil children / nil Data (nonnull directives), wire predicate, catalogue. conn.readPacket/Log not yet under contract in this round; resource exhaustion and stack depth are not panics in the model.",
+   "DESIGN.md §5 C02"),
+})
